@@ -288,7 +288,8 @@ func settle(done func() bool, lag func() int, perSession int) (site string, bloc
 		if l == 0 {
 			continue
 		}
-		if len(blocks) < perSession*l {
+		noteLoopShape(len(blocks), l)
+		if loopShapeSeen.Load() && len(blocks) < perSession*l {
 			return "loop-left-without-exit", blocks
 		}
 		if time.Since(start) >= patience {
